@@ -201,7 +201,7 @@ def gen_case(rng, big):
             chunks.append(list(layout(rng, n, rel, base[nd - rank + i]) if n > 1 else (1,) if rng.random() < 0.9 else (1, 0)))
         ops.append({"shape": list(oshape), "chunks": chunks, "dtype": rng.choice(["u1", "i4", "f8", "f8", "c16", "f4"]), "seed": rng.randrange(10**6), "rels": rels})
     return {
-        "ops": ops, "op": rng.choice(["add", "add", "where", "blockwise", "blockwise", "where_out", "blockwise_perm"]),
+        "ops": ops, "op": rng.choice(["add", "add", "where", "blockwise", "blockwise", "where_out", "blockwise_perm", "outer_pairs"]),
         "policy": rng.choice(["auto", "auto", "coarse", "refine"]), "limit": rng.choice([None, None, "64B", "1KiB", "512MiB"]),
     }
 
@@ -254,6 +254,30 @@ def check_case(p, ctx):
                 m_da = da.from_array(np.ascontiguousarray(m_np), chunks=tuple(rand_composition(random.Random(p["ops"][1]["seed"]), n) for n in shp))
                 y = da.add(xs[0].real.astype("f8"), xs[1].real.astype("f8"), where=m_da, out=o_da)
                 y = o_da
+            elif op == "outer_pairs":
+                # two index labels, each with its own fine/coarse pair of 1-d operands (no operand spans both labels):
+                # einsum('i,i,j,j->ij', a, b, c, d); both merges may exceed the limit
+                r_ = random.Random(p["ops"][0]["seed"])
+                ni, nj = r_.randint(8, 40), r_.randint(8, 40)
+
+                def pair(n):
+                    fine = tuple(rand_composition(r_, n))
+                    coarse, acc = [], 0
+                    for c in fine:  # nest-coarsen: merge runs of the fine chunks
+                        acc += c
+                        if r_.random() < 0.25:
+                            coarse.append(acc)
+                            acc = 0
+                    if acc:
+                        coarse.append(acc)
+                    return fine, tuple(coarse)
+
+                (fi, ci), (fj, cj) = pair(ni), pair(nj)
+                dts = [r_.choice(["f8", "c16"]) for _ in range(4)]
+                arrs = [leaf_values((n,), dt, "perm", p["ops"][0]["seed"] + k) for k, (n, dt) in enumerate(zip((ni, ni, nj, nj), dts))]
+                xs = [da.from_array(a_, chunks=(ch,)) for a_, ch in zip(arrs, (fi, ci, fj, cj))]
+                y = da.einsum("i,i,j,j->ij", *xs)
+                ev = np.einsum("i,i,j,j->ij", *arrs)
             elif op == "blockwise_perm":
                 # operands whose index tuples are permutations of one another: x over 'ij', y over 'ji' (square arrays);
                 # half of the time both carry the SAME chunks tuple while the two axes are chunked differently
